@@ -120,6 +120,17 @@ inductive GStep
   | alreadyValid | nilGuard | storeRecovered | emptyNote | returnTrue | unknown
   deriving DecidableEq, Repr
 
+/-- `Processor.loadOrNewSignParty`. -/
+inductive PStep
+  | lock | deferUnlock | routeToParty | dropFinished | parkAppend | createParty | unknown
+  deriving DecidableEq, Repr
+
+/-- route to a live party; drop for a finished key; otherwise (verify message) PARK it by plain append —
+no look at what is already parked, in particular no dedup by the (unauthenticated) signer id;
+otherwise (cast message) create the party. -/
+def expectedLoadPartySteps : List PStep :=
+  [.lock, .deferUnlock, .routeToParty, .dropFinished, .parkAppend, .createParty]
+
 def expectedStart2Steps : List R2Step :=
   [.finishedGuard, .setFinished, .checkBlockExisted, .checkSignature, .generateBlock, .generateGuard,
    .addOnChainAsync, .signalDone, .returnNil]
